@@ -3,7 +3,7 @@ import base64, hashlib, json, urllib.parse
 from vlib import common, coq, gobuild, gw, s3c, e2e, chunkenc
 from vlib.common import coq_str, coq_list, coq_bool
 
-THEOREMS = ["C01_read_back_partial", "C01_directory_object_read_back", "C01_put_changes_only_its_key", "C01_get_is_pure"]
+THEOREMS = ["C01_read_back_partial", "C01_directory_object_read_back", "C01_put_changes_only_its_key", "C01_history_refines_map", "C01_read_after_any_history", "C01_get_is_pure"]
 TARGETS = ["Properties/C01.vo", "Check/PosixCheck.vo"]
 LENS = [0, 1, 5, 100, 3000, 4097, 32768, 65537, 70001]
 CONFIGS = [("xattr+otmp", {"iam": False}), ("xattr+named-temp", {"iam": False, "otmp": False}), ("sidecar", {"iam": False, "meta": "sidecar"}),
